@@ -2,7 +2,7 @@ package main
 
 import "golang.org/x/tools/go/ssa"
 
-func init() { register("C06", checkC06) }
+func init() { register("C06", checkC06, cfgLinux386) }
 
 func checkC06(p *Program, tier string) *Result {
 	r := newResult("C06")
